@@ -77,14 +77,16 @@ example : strip "a \\// b //= c // d".toList = ("a // b //= c ".toList, "// d".t
 
 /-! ## uniform indentation -/
 
-def indentBy (k : Nat) (l : List Char) : List Char := if isBlank l then l else List.replicate k ' ' ++ l
+/-- indent a line by `k` more blanks — every line, blank ones too (editors do that) -/
+def indentBy (k : Nat) (l : List Char) : List Char := List.replicate k ' ' ++ l
 
 theorem isBlank_replicate_append (k : Nat) (l : List Char) : isBlank (List.replicate k ' ' ++ l) = isBlank l := by
   induction k with
   | zero => rfl
   | succ k ih => simp only [List.replicate_succ, List.cons_append, isBlank, List.all_cons] at ih ⊢; simp [isPyWs, ih]
 
-theorem leadingWs_replicate_append (k : Nat) (l : List Char) : leadingWs (List.replicate k ' ' ++ l) = leadingWs l + k := by
+theorem leadingWs_replicate_append (k : Nat) (l : List Char) (h : isBlank l = false) :
+    leadingWs (List.replicate k ' ' ++ l) = leadingWs l + k := by
   induction k with
   | zero => rfl
   | succ k ih =>
@@ -92,10 +94,8 @@ theorem leadingWs_replicate_append (k : Nat) (l : List Char) : leadingWs (List.r
     have : isPyWs ' ' = true := by decide
     simp only [this, if_true, ih]; omega
 
-theorem isBlank_indentBy (k : Nat) (l : List Char) : isBlank (indentBy k l) = isBlank l := by
-  unfold indentBy; split
-  · rfl
-  · exact isBlank_replicate_append k l
+theorem isBlank_indentBy (k : Nat) (l : List Char) : isBlank (indentBy k l) = isBlank l :=
+  isBlank_replicate_append k l
 
 theorem baseIndent_indent (k : Nat) : ∀ (ls : List (List Char)),
     baseIndent (ls.map (indentBy k)) = (baseIndent ls).map (· + k) := by
@@ -107,55 +107,43 @@ theorem baseIndent_indent (k : Nat) : ∀ (ls : List (List Char)),
     split
     · exact ih
     · rename_i hb
-      simp only [indentBy, hb, Bool.false_eq_true, if_false, Option.map_some, leadingWs_replicate_append]
+      have hb' : isBlank l = false := by simpa using hb
+      simp only [indentBy, Option.map_some, leadingWs_replicate_append k l hb']
 
 theorem dedentLine_indent (k b : Nat) (l : List Char) (hok : isBlank l = true ∨ leadingWs l ≥ b) :
     dedentLine (b + k) (indentBy k l) = dedentLine b l := by
   unfold dedentLine
   rw [isBlank_indentBy]
   split
-  · rename_i hb; simp [indentBy, hb]
+  · rfl
   · rename_i hb
+    have hb' : isBlank l = false := by simpa using hb
     have h : leadingWs l ≥ b := by
       rcases hok with h | h
       · exact absurd h hb
       · exact h
-    simp only [indentBy, hb, Bool.false_eq_true, if_false, leadingWs_replicate_append]
+    simp only [indentBy, leadingWs_replicate_append k l hb']
     have h' : leadingWs l + k ≥ b + k := by omega
     simp only [h, h', if_true]
     rw [Nat.add_comm b k, ← List.drop_drop]
     simp [List.drop_left']
 
-/-- **uniform indentation of a block body is presentation only**: shifting every non-blank line of a
-well-indented body (no line indented less than the first) by the same `k` blanks does not change
-what `detect_and_strip_indentation` returns -/
+/-- **uniform indentation of a block body is presentation only**: shifting every line (blank lines included) of a
+well-indented body (no line indented less than the first) by the same `k` blanks does not change what
+`detect_and_strip_indentation` returns -/
 theorem dedent_uniform (k : Nat) (ls : List (List Char))
     (hwell : ∀ b, baseIndent ls = some b → ∀ l ∈ ls, isBlank l = true ∨ leadingWs l ≥ b) :
     dedent (ls.map (indentBy k)) = dedent ls := by
   unfold dedent
   rw [baseIndent_indent]
   cases hb : baseIndent ls with
-  | none =>
-    simp only [Option.map_none]
-    -- every line is blank: indentation leaves blank lines alone
-    have : ∀ (ls : List (List Char)), baseIndent ls = none → ls.map (indentBy k) = ls := by
-      intro ls
-      induction ls with
-      | nil => intro _; rfl
-      | cons l rest ih =>
-        intro h
-        simp only [baseIndent] at h
-        split at h
-        · rename_i hbl
-          simp only [List.map_cons, indentBy, hbl, if_true, ih h]
-        · cases h
-    exact this ls hb
+  | none => simp [List.map_map]
   | some b =>
     simp only [Option.map_some, List.map_map]
     apply List.map_congr_left
     intro l hl
     exact dedentLine_indent k b l (hwell b hb l hl)
 
-example : dedent ["    a".toList, "      b".toList, "".toList, "    c".toList] = ["a".toList, "  b".toList, "".toList, "c".toList] := by decide
+example : dedent ["    a".toList, "      b".toList, "    ".toList, "    c".toList] = ["a".toList, "  b".toList, "".toList, "c".toList] := by decide
 
 end Bardic.Parser
